@@ -44,6 +44,9 @@ PARTIAL BY NATURE — carried by the correspondence run with real children only:
 namespace Verif.Props.C16
 open Verif.Gen.Timing Verif.Model.Shutdown
 
+/-- the translator located the bound of the stdout drain (or established that there is no drain) -/
+theorem c16_drain_translated : Verif.Gen.Shutdown.translatable = true := by decide
+
 theorem c16_translated : graceTranslatable = true := by decide
 
 /-- "the two one-second grace periods" -/
@@ -148,31 +151,68 @@ theorem finish_sound (os : OS) (p : ExitPath) (c : ChildSpec) :
     finish Design.sound os p c = exit true os p c := by
   simp [finish, Design.sound]
 
+theorem drain_le (c : ChildSpec) (t : Trace) :
+    (drainPhase c t).duration ≤ t.duration + (if c.stdoutHeld then Verif.Gen.Shutdown.drainMs else 0) := by
+  unfold drainPhase
+  split
+  · rename_i h
+    simp only [Bool.and_eq_true] at h
+    simp [h.2]
+  · split <;> simp
+
+theorem drain_child (c : ChildSpec) (t : Trace) : (drainPhase c t).child = t.child := by
+  unfold drainPhase
+  split <;> rfl
+
+theorem drain_not_held (c : ChildSpec) (t : Trace) (h : c.stdoutHeld = false) : drainPhase c t = t := by
+  simp [drainPhase, h]
+
 /-- **Bounded, everything included.**  If what the exit does before cancelling its tasks (waiting
 for the stdin writer) is bounded by `w`, then for EVERY exit path, child, amount of queued output
-and OS — shielded or not — `__aexit__` returns, within `w + g₁ + g₂`. -/
+and OS — shielded or not — `__aexit__` returns, within `w + g₁ + g₂`, plus the (regenerated) bound
+of the stdout drain when somebody else holds the dead child's stdout open. -/
 theorem c16_leave_bounded (d : Design) (w : Nat) (hw : d.flushWait = some w) (os : OS) (p : ExitPath)
     (c : ChildSpec) (l : Load) :
-    ∃ t, leave d os p c l = some t ∧ t.duration ≤ w + (graceTermMs + graceKillMs) := by
+    ∃ t, leave d os p c l = some t
+      ∧ t.duration ≤ w + (graceTermMs + graceKillMs) + (if c.stdoutHeld then Verif.Gen.Shutdown.drainMs else 0) := by
   obtain ⟨f, hf, hle⟩ := flushPhase_le d w hw p c l
   simp only [leave, hf]
-  exact ⟨_, rfl, Nat.add_le_add hle (finish_le _ _ _ _)⟩
+  refine ⟨_, rfl, ?_⟩
+  refine Nat.le_trans (Nat.add_le_add hle (drain_le c _)) ?_
+  refine Nat.le_trans (Nat.add_le_add_left (Nat.add_le_add_right (finish_le _ _ _ _) _) _) ?_
+  omega
 
-/-- The design the property asks for (no wait, shielded): within two seconds and reaped, for every
-exit path, every child and every backlog of queued output. -/
+/-- The design the property asks for (no wait, shielded), a child whose stdout nobody else holds:
+within two seconds and reaped, for every exit path, every such child and every backlog. -/
 theorem c16_leave_sound (os : OS) (p : ExitPath) (c : ChildSpec) (l : Load)
-    (hkill : os.killDelay < graceKillMs) (hwait : os.waitReaps = true) :
+    (hkill : os.killDelay < graceKillMs) (hwait : os.waitReaps = true) (hheld : c.stdoutHeld = false) :
     ∃ t, leave Design.sound os p c l = some t ∧ t.duration ≤ 2000 ∧ t.child = .reaped := by
   obtain ⟨f, hf, hle⟩ := flushPhase_le Design.sound 0 rfl p c l
   have hf0 : f = 0 := by omega
   subst hf0
-  simp only [leave, hf]
+  simp only [leave, hf, drain_not_held c _ hheld]
   refine ⟨_, rfl, ?_, ?_⟩
   · show 0 + _ ≤ 2000
     rw [Nat.zero_add, finish_sound]
     exact c16_bounded_two_seconds _ _ _ _
   · show (finish Design.sound os p _).child = .reaped
     rw [finish_sound]
+    exact c16_reaped os p _ hkill hwait
+
+/-- ... and when a grandchild holds the dead child's stdout open: still reaped, and bounded by the
+two grace periods plus the drain bound. -/
+theorem c16_leave_sound_held (os : OS) (p : ExitPath) (c : ChildSpec) (l : Load)
+    (hkill : os.killDelay < graceKillMs) (hwait : os.waitReaps = true) :
+    ∃ t, leave Design.sound os p c l = some t ∧ t.duration ≤ 2000 + Verif.Gen.Shutdown.drainMs ∧ t.child = .reaped := by
+  obtain ⟨t, ht, hb⟩ := c16_leave_bounded Design.sound 0 rfl os p c l
+  refine ⟨t, ht, ?_, ?_⟩
+  · have := c16_grace_periods
+    split at hb <;> omega
+  · obtain ⟨f, hf, hle⟩ := flushPhase_le Design.sound 0 rfl p c l
+    simp only [leave, hf, Option.some.injEq] at ht
+    subst ht
+    show (drainPhase c (finish Design.sound os p _)).child = .reaped
+    rw [drain_child, finish_sound]
     exact c16_reaped os p _ hkill hwait
 
 /-- **An unbounded wait for the writer, as a theorem.**  If the exit waits without bound for the
@@ -213,12 +253,13 @@ theorem sessionsFrom_sound (os : OS) (first : Bool) (ss : List (ExitPath × Chil
 /-- **Reuse.**  Any number of sequential sessions on one client object, each with its own exit
 path, child and backlog: EVERY session's exit returns within two seconds with its child reaped. -/
 theorem c16_reuse_sound (os : OS) (ss : List (ExitPath × ChildSpec × Load))
-    (hkill : os.killDelay < graceKillMs) (hwait : os.waitReaps = true) :
+    (hkill : os.killDelay < graceKillMs) (hwait : os.waitReaps = true)
+    (hheld : ∀ s ∈ ss, s.2.1.stdoutHeld = false) :
     ∀ r ∈ sessions Design.sound os ss, ∃ t, r = some t ∧ t.duration ≤ 2000 ∧ t.child = .reaped := by
   intro r hr
   simp only [sessions, sessionsFrom_sound, List.mem_map] at hr
-  obtain ⟨s, _, rfl⟩ := hr
-  exact c16_leave_sound os s.1 s.2.1 s.2.2 hkill hwait
+  obtain ⟨s, hs, rfl⟩ := hr
+  exact c16_leave_sound os s.1 s.2.1 s.2.2 hkill hwait (hheld s hs)
 
 /-- **An exit that runs once per object.**  If the exit is guarded by a flag that entering does
 not reset, the second session's exit does nothing: a child that is alive stays running. -/
@@ -233,11 +274,11 @@ theorem c16_exit_once_leaks_on_reuse (d : Design) (hd : d.exitOnce = true) (os :
 child that never answers raises, and the child is reaped within the bound all the same — whatever
 the child otherwise does and however much output is queued. -/
 theorem c16_failed_handshake_cleans_up (os : OS) (p : ExitPath) (c : ChildSpec) (l : Load)
-    (hkill : os.killDelay < graceKillMs) (hwait : os.waitReaps = true) :
+    (hkill : os.killDelay < graceKillMs) (hwait : os.waitReaps = true) (hheld : c.stdoutHeld = false) :
     (sessionWithHandshake Design.sound os false p c l).1 = true
     ∧ ∃ t, (sessionWithHandshake Design.sound os false p c l).2 = some t ∧ t.duration ≤ 2000 ∧ t.child = .reaped := by
   refine ⟨rfl, ?_⟩
-  exact c16_leave_sound os .exception c l hkill hwait
+  exact c16_leave_sound os .exception c l hkill hwait hheld
 
 /-- a child that reacts to SIGTERM 100 ms after the first grace period has run out is killed at g₁ -/
 example : leave Design.sound ⟨5, true⟩ .normal (childSpec (.slowTerm 1100) (.after 1)) ⟨0, 131072⟩
@@ -350,6 +391,10 @@ example : (sessions Design.sound ⟨5, true⟩
 example : (sessions { Design.sound with exitOnce := true } ⟨5, true⟩
       (List.replicate 3 (.normal, childSpec .well (.after 1), ⟨0, 131072⟩))).map (·.map (·.child))
     = [some .reaped, some .running, some .running] := by decide
+
+/-- a grandchild keeps the dead child's stdout open: reaped, and the drain bound on top -/
+example : (leave Design.sound ⟨5, true⟩ .normal { childSpec .well .before with stdoutHeld := true } ⟨0, 131072⟩).map
+      (fun t => (t.duration, t.child)) = some (Verif.Gen.Shutdown.drainMs, .reaped) := by decide
 
 example : pending [(1, "a"), (2, "b")] 2 = .returned "b" := by simp [pending]
 example : pending [(1, "a")] 2 = (.timedOut : ReqOutcome String) :=
